@@ -461,7 +461,9 @@ pub fn expand_glob(tokens: &mut types::Tokens) {
             let _basename = libs::path::basename(item);
             let show_hidden = _basename.starts_with(".*");
 
-            match glob::glob(item) {
+            // (a value inserted earlier is masked in `item`: the file system
+            // is asked with the real characters)
+            match glob::glob(&unmask_produced(item)) {
                 Ok(paths) => {
                     let mut is_empty = true;
                     for entry in paths {
